@@ -1270,3 +1270,400 @@ func E9WindingsSync(c *core.Ctx, r *core.Report) {
 	r.Count("E9.result-windings-assignments", n)
 	r.Floor("E9.result-windings-assignments", 2)
 }
+
+// ---- hit counting in windings / Crossings --------------------------------------------------
+
+type hitPath struct {
+	conds   []ast.Expr
+	taken   []bool
+	count   bool // the count is updated
+	carried bool // a variable that outlives the iteration is assigned
+	into    bool // two Into() results were compared
+	where   token.Pos
+}
+
+// E9HitCounting: which ray hits are counted by windings and Crossings.
+func E9HitCounting(c *core.Ctx, r *core.Report) {
+	r.Rule("E9.tangent-not-counted", "windings and Path.Crossings: on every path through the loop over the ray's hits that updates the count, the hit was tested not to be Tangent (the ray only touches the segment: the apex of a curve level with the point), or the update is decided by comparing the Into() of the two hits that meet at a vertex")
+	r.Rule("E9.endpoint-hit-consumed", "windings and Path.Crossings: a hit at the end of a segment (T[1] is 0 or 1) that is neither the ray's start nor overlapping the ray is never dropped without effect: every path through the loop body that such a hit can take either remembers it for the hit on the adjoining segment (assigns a variable that outlives the iteration) or compares its Into() with that partner's. Dropping it because its list neighbour overlaps the ray loses the crossing of a path that runs along the ray and continues in the same vertical direction (a step)")
+	r.Rule("E9.overlap-skipped", "windings and Path.Crossings: a hit that overlaps the ray (Same) and is not the ray's start has no effect on the count and is not remembered as a partner: the segments before and after the overlap are paired with each other")
+	p := c.MustPkg("")
+	info := p.TypesInfo
+	n := 0
+	for _, fname := range []string{"windings", "Path.Crossings"} {
+		fd := core.MustFuncDecl(p, fname)
+		r.Func("canvas." + fname)
+		// the loop over []Intersection
+		var loop ast.Stmt
+		var body *ast.BlockStmt
+		var hit types.Object
+		ast.Inspect(fd.Body, func(m ast.Node) bool {
+			if loop != nil {
+				return false
+			}
+			isHits := func(e ast.Expr) bool {
+				t := info.TypeOf(e)
+				if t == nil {
+					return false
+				}
+				s, ok := t.Underlying().(*types.Slice)
+				if !ok {
+					return false
+				}
+				nt, ok := s.Elem().(*types.Named)
+				return ok && nt.Obj().Name() == "Intersection"
+			}
+			switch x := m.(type) {
+			case *ast.RangeStmt:
+				if isHits(x.X) {
+					if id, ok := x.Value.(*ast.Ident); ok {
+						loop, body, hit = x, x.Body, core.ObjOf(info, id)
+					}
+				}
+			case *ast.ForStmt:
+				// for i := …; i < len(zs); … { z := zs[i] …
+				if len(x.Body.List) > 0 {
+					if as, ok := x.Body.List[0].(*ast.AssignStmt); ok && as.Tok == token.DEFINE && len(as.Lhs) == 1 && len(as.Rhs) == 1 {
+						if ie, ok := as.Rhs[0].(*ast.IndexExpr); ok && isHits(ie.X) {
+							loop, body, hit = x, x.Body, core.ObjOf(info, as.Lhs[0].(*ast.Ident))
+						}
+					}
+				}
+			}
+			return true
+		})
+		if loop == nil || hit == nil {
+			r.Fail("E9.endpoint-hit-consumed", "canvas."+fname+"|loop over the ray's hits", c.Pos(fd.Pos()), "no loop over a []Intersection with a hit variable was found")
+			continue
+		}
+		outside := func(o types.Object) bool {
+			return o != nil && (o.Pos() < loop.Pos() || o.Pos() > loop.End())
+		}
+		isIntoCmp := func(e ast.Expr) bool {
+			found := false
+			ast.Inspect(e, func(k ast.Node) bool {
+				be, ok := k.(*ast.BinaryExpr)
+				if !ok || (be.Op != token.EQL && be.Op != token.NEQ) {
+					return true
+				}
+				isInto := func(e ast.Expr) bool {
+					call, ok := core.Unparen(e).(*ast.CallExpr)
+					if !ok {
+						return false
+					}
+					se, ok := call.Fun.(*ast.SelectorExpr)
+					return ok && se.Sel.Name == "Into"
+				}
+				if isInto(be.X) && isInto(be.Y) {
+					found = true
+				}
+				return true
+			})
+			return found
+		}
+		// enumerate paths
+		var paths []hitPath
+		var walk func(stmts []ast.Stmt, cur hitPath, k func(hitPath))
+		walk = func(stmts []ast.Stmt, cur hitPath, k func(hitPath)) {
+			if len(stmts) == 0 {
+				k(cur)
+				return
+			}
+			st, rest := stmts[0], stmts[1:]
+			switch x := st.(type) {
+			case *ast.BranchStmt:
+				paths = append(paths, cur) // continue / break end the iteration
+				return
+			case *ast.ReturnStmt:
+				paths = append(paths, cur)
+				return
+			case *ast.BlockStmt:
+				walk(x.List, cur, func(h hitPath) { walk(rest, h, k) })
+				return
+			case *ast.IfStmt:
+				t, f := cur, cur
+				t.conds = append(append([]ast.Expr{}, cur.conds...), x.Cond)
+				t.taken = append(append([]bool{}, cur.taken...), true)
+				f.conds = append(append([]ast.Expr{}, cur.conds...), x.Cond)
+				f.taken = append(append([]bool{}, cur.taken...), false)
+				if isIntoCmp(x.Cond) {
+					t.into, f.into = true, true
+				}
+				walk(x.Body.List, t, func(h hitPath) { walk(rest, h, k) })
+				switch e := x.Else.(type) {
+				case nil:
+					walk(rest, f, k)
+				case *ast.BlockStmt:
+					walk(e.List, f, func(h hitPath) { walk(rest, h, k) })
+				case *ast.IfStmt:
+					walk([]ast.Stmt{e}, f, func(h hitPath) { walk(rest, h, k) })
+				}
+				return
+			case *ast.AssignStmt:
+				for _, l := range x.Lhs {
+					if id, ok := core.Unparen(l).(*ast.Ident); ok {
+						o := core.ObjOf(info, id)
+						if !outside(o) {
+							continue
+						}
+						if b, ok := o.Type().Underlying().(*types.Basic); ok && b.Info()&types.IsNumeric != 0 {
+							cur.count = true
+							cur.where = x.Pos()
+						} else {
+							cur.carried = true
+						}
+					}
+				}
+			case *ast.IncDecStmt:
+				if id, ok := core.Unparen(x.X).(*ast.Ident); ok && outside(core.ObjOf(info, id)) {
+					cur.count = true
+					cur.where = x.Pos()
+				}
+			}
+			walk(rest, cur, k)
+		}
+		walk(body.List, hitPath{}, func(h hitPath) { paths = append(paths, h) })
+		// assumption environments
+		isHitSel := func(e ast.Expr, field string) bool {
+			se, ok := core.Unparen(e).(*ast.SelectorExpr)
+			if !ok || se.Sel.Name != field {
+				return false
+			}
+			id, ok := core.Unparen(se.X).(*ast.Ident)
+			return ok && core.ObjOf(info, id) == hit
+		}
+		isHitT := func(e ast.Expr, idx int64) bool {
+			ie, ok := core.Unparen(e).(*ast.IndexExpr)
+			if !ok || !isHitSel(ie.X, "T") {
+				return false
+			}
+			v, ok := core.ConstInt(info, ie.Index)
+			return ok && v == idx
+		}
+		// boolean locals defined once in the loop body are evaluated through their definition
+		localDef := map[types.Object]ast.Expr{}
+		localCnt := map[types.Object]int{}
+		ast.Inspect(body, func(k ast.Node) bool {
+			if as, ok := k.(*ast.AssignStmt); ok && len(as.Lhs) == len(as.Rhs) {
+				for i, l := range as.Lhs {
+					if id, ok := l.(*ast.Ident); ok {
+						if o := core.ObjOf(info, id); o != nil && !outside(o) {
+							localCnt[o]++
+							localDef[o] = as.Rhs[i]
+						}
+					}
+				}
+			}
+			return true
+		})
+		var env func(same bool, t1 float64) func(ast.Expr) tri
+		env = func(same bool, t1 float64) func(ast.Expr) tri {
+			return func(e ast.Expr) tri {
+				if id, ok := e.(*ast.Ident); ok {
+					if o := core.ObjOf(info, id); o != nil && localCnt[o] == 1 {
+						if b, ok := o.Type().Underlying().(*types.Basic); ok && b.Info()&types.IsBoolean != 0 {
+							return evalBool(info, localDef[o], env(same, t1))
+						}
+					}
+				}
+				if isHitSel(e, "Same") {
+					return triOf(same)
+				}
+				if same && isHitSel(e, "Tangent") {
+					return tTrue // Same implies Tangent
+				}
+				if be, ok := e.(*ast.BinaryExpr); ok && (be.Op == token.EQL || be.Op == token.NEQ) {
+					for i, s := range []ast.Expr{be.X, be.Y} {
+						o := []ast.Expr{be.Y, be.X}[i]
+						f, isConst := constantFloat(core.ConstVal(info, o))
+						if !isConst {
+							continue
+						}
+						if isHitT(s, 0) && f == 0 {
+							return triOf(be.Op == token.NEQ) // not the ray's start
+						}
+						if isHitT(s, 1) && t1 >= 0 {
+							return triOf((f == t1) == (be.Op == token.EQL))
+						}
+					}
+				}
+				return tUnknown
+			}
+		}
+		feasible := func(h hitPath, ev func(ast.Expr) tri) bool {
+			for i, cnd := range h.conds {
+				v := evalBool(info, cnd, ev)
+				if v != tUnknown && (v == tTrue) != h.taken[i] {
+					return false
+				}
+			}
+			return true
+		}
+		condStr := func(h hitPath) string {
+			var parts []string
+			for i, cnd := range h.conds {
+				s := c.Src(cnd)
+				if !h.taken[i] {
+					s = "!(" + s + ")"
+				}
+				parts = append(parts, s)
+			}
+			return strings.Join(parts, " && ")
+		}
+		// (a) tangent-not-counted
+		n++
+		keyA := "canvas." + fname + "|a counted hit is not tangent or is a vertex whose sides agree"
+		badA := ""
+		posA := fd.Pos()
+		ncount := 0
+		for _, h := range paths {
+			if !h.count {
+				continue
+			}
+			ncount++
+			ok := false
+			for i, cnd := range h.conds {
+				// !X.Tangent taken, or X.Tangent not taken
+				neg := false
+				e := core.Unparen(cnd)
+				if u, isNot := e.(*ast.UnaryExpr); isNot && u.Op == token.NOT {
+					neg, e = true, core.Unparen(u.X)
+				}
+				if se, isSel := e.(*ast.SelectorExpr); isSel && se.Sel.Name == "Tangent" && neg == h.taken[i] {
+					ok = true
+				}
+				if isIntoCmp(cnd) && h.taken[i] {
+					ok = true
+				}
+			}
+			if !ok && badA == "" {
+				badA = condStr(h)
+				posA = h.where
+			}
+		}
+		if ncount == 0 {
+			r.Fail("E9.tangent-not-counted", keyA, c.Pos(fd.Pos()), "no path through the loop updates a count")
+		} else if badA != "" {
+			r.Fail("E9.tangent-not-counted", keyA, c.Pos(posA), "the count is updated on the path `"+badA+"` without a test that the hit is not Tangent: a ray that only touches the apex of a curve is counted as a crossing")
+		} else {
+			r.OK("E9.tangent-not-counted", keyA, c.Pos(fd.Pos()), "")
+		}
+		// (b) endpoint-hit-consumed
+		n++
+		keyB := "canvas." + fname + "|an end-point hit off the ray's start and not overlapping is remembered or compared"
+		badB := ""
+		for _, t1 := range []float64{0, 1} {
+			for _, h := range paths {
+				if feasible(h, env(false, t1)) && !h.count && !h.carried && !h.into && badB == "" {
+					badB = condStr(h)
+				}
+			}
+		}
+		if badB != "" {
+			r.Fail("E9.endpoint-hit-consumed", keyB, c.Pos(body.Pos()), "an end-point hit can take the path `"+badB+"` on which it is neither remembered for its partner nor compared with it: the crossing of a path that continues in the same vertical direction after running along the ray is lost")
+		} else {
+			r.OK("E9.endpoint-hit-consumed", keyB, c.Pos(body.Pos()), "")
+		}
+		// (c) overlap-skipped
+		n++
+		keyC := "canvas." + fname + "|an overlapping hit has no effect"
+		badC := ""
+		for _, t1 := range []float64{0, 1, 0.5} {
+			for _, h := range paths {
+				if feasible(h, env(true, t1)) && (h.count || h.carried) && badC == "" {
+					badC = condStr(h)
+				}
+			}
+		}
+		if badC != "" {
+			r.Fail("E9.overlap-skipped", keyC, c.Pos(body.Pos()), "a hit that overlaps the ray can take the path `"+badC+"` on which it changes the count or is remembered as a partner")
+		} else {
+			r.OK("E9.overlap-skipped", keyC, c.Pos(body.Pos()), "")
+		}
+	}
+	r.Count("E9.hit-counting-obligations", n)
+	r.Floor("E9.hit-counting-obligations", 6)
+}
+
+// E9CubicDirection: the direction of a cubic is not taken from a derivative that can vanish.
+func E9CubicDirection(c *core.Ctx, r *core.Report) {
+	r.Rule("E9.cubic-direction", "The derivative of a cubic Bézier vanishes at an end point that coincides with its control point (CubeTo keeps such curves). Every use of cubicBezierDeriv's result as a direction — Angle(), Norm(), Rot90CW/CCW(), Slope() — is therefore in a function that tests that result for being zero (Equals/IsZero/comparison of its components) and substitutes the chord to the next distinct control point, as cubicBezierNormal does; uses as a speed (Length()) and inside curvature formulas are not directions. RayIntersections otherwise flags the hit at such a vertex as tangent and Windings drops it; CCW gets a zero direction")
+	p := c.MustPkg("")
+	info := p.TypesInfo
+	n := 0
+	dirMethods := map[string]bool{"Angle": true, "Norm": true, "Rot90CW": true, "Rot90CCW": true, "Slope": true, "AngleBetween": true}
+	for _, fd := range core.AllFuncDecls(p) {
+		if fd.Body == nil || strings.HasSuffix(c.Fset.Position(fd.Pos()).Filename, "_test.go") {
+			continue
+		}
+		fname := "canvas." + core.FuncName(fd)
+		ord := 0
+		var stack []ast.Node
+		ast.Inspect(fd.Body, func(m ast.Node) bool {
+			if m == nil {
+				stack = stack[:len(stack)-1]
+				return true
+			}
+			stack = append(stack, m)
+			call, ok := m.(*ast.CallExpr)
+			if !ok {
+				return true
+			}
+			f := core.CalleeOf(info, call)
+			if f == nil || f.Pkg() != p.Types || f.Name() != "cubicBezierDeriv" {
+				return true
+			}
+			n++
+			ord++
+			key := fmt.Sprintf("%s|cubicBezierDeriv use #%d is not a direction that can be zero", fname, ord)
+			// immediate method call on the result?
+			asDir := ""
+			var v types.Object
+			if len(stack) >= 3 {
+				if se, ok := stack[len(stack)-2].(*ast.SelectorExpr); ok && se.X == ast.Expr(call) {
+					if dirMethods[se.Sel.Name] {
+						asDir = "." + se.Sel.Name + "() is applied to the derivative directly"
+					}
+				}
+			}
+			if len(stack) >= 2 {
+				if as, ok := stack[len(stack)-2].(*ast.AssignStmt); ok && len(as.Lhs) == 1 && len(as.Rhs) == 1 && as.Rhs[0] == ast.Expr(call) {
+					if id, ok := as.Lhs[0].(*ast.Ident); ok {
+						v = core.ObjOf(info, id)
+					}
+				}
+			}
+			if v != nil {
+				usedAsDir, zeroTested := "", false
+				ast.Inspect(fd.Body, func(k ast.Node) bool {
+					se, ok := k.(*ast.SelectorExpr)
+					if !ok {
+						return true
+					}
+					id, ok := core.Unparen(se.X).(*ast.Ident)
+					if !ok || core.ObjOf(info, id) != v {
+						return true
+					}
+					if dirMethods[se.Sel.Name] {
+						usedAsDir = se.Sel.Name
+					}
+					if se.Sel.Name == "Equals" || se.Sel.Name == "IsZero" {
+						zeroTested = true
+					}
+					return true
+				})
+				if usedAsDir != "" && !zeroTested {
+					asDir = "." + usedAsDir + "() is applied to `" + v.Name() + "`, which is never tested for being zero"
+				}
+			}
+			if asDir != "" {
+				r.Fail("E9.cubic-direction", key, c.Pos(call.Pos()), asDir+": at an end point that coincides with its control point the derivative is the zero vector and the direction is lost")
+			} else {
+				r.OK("E9.cubic-direction", key, c.Pos(call.Pos()), "")
+			}
+			return true
+		})
+	}
+	r.Count("E9.cubic-deriv-uses", n)
+	r.Floor("E9.cubic-deriv-uses", 4)
+}
